@@ -153,7 +153,7 @@ def runQueue (prop : String) (f : List String) (obsS : String) : Verdict :=
   match f with
   | [_, capS, hS, opsS] =>
     let cap := if capS == "u" then none else capS.toNat?
-    let hh := hS == "1"
+    let hh := hS != "0"
     match (splitList opsS ",").mapM parseOp, (obsS.splitOn ";").mapM parseObs1 with
     | some ops, some impl =>
       let impl := if opsS == "-" then [] else impl
@@ -163,6 +163,15 @@ def runQueue (prop : String) (f : List String) (obsS : String) : Verdict :=
       let v := match ckHistory cap hh {} ops impl with
         | .ok _ => none
         | .error e => some (e.prop, e.clause)
+      -- an undelivered / lost metric is a C08 and a C09 matter, and a C11 one when a panic occurred
+      let hadPanic := ops.any fun o => match o with | .fin .panic _ => true | _ => false
+      let also : List String := match v with
+        | some (p, cl) =>
+          if (cl.splitOn "never handed").length > 1 || (cl.splitOn "before every accepted").length > 1 then
+            (["C08", "C09"] ++ (if hadPanic then ["C11"] else [])).filter (· != p)
+          else if hadPanic && (p == "C08" || p == "C09") then ["C11"] else []
+        | none => []
+      let v := v.map fun (p, cl) => ("+".intercalate (p :: also), cl)
       ⟨ip == mp, ip, mp, v, opTags ops model, false⟩
     | _, _ => badCase
   | _ => badCase
@@ -176,6 +185,15 @@ def runStress (_prop : String) (_f : List String) (obsS : String) : Verdict :=
   if obsS == "ok" then ⟨true, "ok", "ok", none, ["stress"], false⟩
   else
     let p := if obsS.startsWith "wrapped-sink" then "C09" else if obsS.startsWith "queued" || obsS.startsWith "submitted" then "C15" else "C08"
-    ⟨true, obsS, obsS, some (p, "free-running producers: " ++ obsS), ["stress"], false⟩
+    let also := if obsS.startsWith "queued-panicked" then ["C20"] else []
+    ⟨true, obsS, obsS, some ("+".intercalate (p :: also), "free-running producers: " ++ obsS), ["stress"], false⟩
+
+def runBurst (_prop : String) (_f : List String) (obsS : String) : Verdict :=
+  if obsS == "ok" then ⟨true, "ok", "ok", none, ["burst"], false⟩
+  else ⟨true, obsS, obsS, some ("C10", "concurrent producers against a blocked wrapped sink: " ++ obsS), ["burst"], false⟩
+
+def runLatency (_prop : String) (_f : List String) (obsS : String) : Verdict :=
+  if obsS == "ok" then ⟨true, "ok", "ok", none, ["latency"], false⟩
+  else ⟨true, obsS, obsS, some ("C10", "emit did not return promptly: " ++ obsS), ["latency"], false⟩
 
 end Drv.QueueE
